@@ -25,7 +25,7 @@ from vlib import cli, core
 
 META = {
     "level": "proof",
-    "technique": "Coq theorems (no_clobber, conflict_reported) on a Gallina model of the guarded output steps of every command offering --overwrite over a small file system; model tied to the real binary by running both on the same scenarios (pre-existing objects at subsets of the observed output paths); direct before/after oracle on the real file system",
+    "technique": "Coq theorems (no_clobber, conflict_reported) on a Gallina model of the guarded output steps of every command offering --overwrite over a small file system; model tied to the real binary by running both on the same scenarios (pre-existing objects at subsets of the observed output paths); direct before/after oracle on the real file system A split whose single output part carries the archive's own name is replayed on the implementation alone (clean run succeeds, second run refused, file untouched).",
     "level_text": "For the model of the repaired code it is proved in Coq (closed under the global context) that with overwrite off no node that existed before the run differs after it and that an occupied output path yields a non-zero exit, for every command kind, every output list and every initial file system; the unrepaired variants (only the first output guarded; symlink-following guard) are proved to clobber. The model's exit status and its sets of changed / newly created paths are compared with the real `pna` binary on every scenario, and the property itself (content hash, inode, mtime, mode of every pre-existing object unchanged; conflict => non-zero exit; nothing new outside the expected outputs) is evaluated on the real file system.",
     "level_note": "Trusted: Coq kernel + vm_compute; extraction and modelrun/driver.ml (cross-checked against kernel evaluation on a sample each run); props/C20.py (scenario placement, snapshots, physical-path computation) and vlib/cli.py; the hand-written step lists in Overwrite.v are faithful only as far as the scenarios reach. Outside the model: races with other processes between a test and the open (the part files use O_EXCL, the single-output commands test then create), hard links, permissions, other platforms.",
 }
